@@ -239,7 +239,8 @@ func c46Classify(stream []byte, limit int) c46Verdict {
 		// the peer closed in the middle of what may have become a signature
 		return c46Verdict{Mode: c46DontCare, Class: "sig-prefix-eof"}
 	}
-	if (stream[0] == 'P' && n < 5) || (stream[0] == 0x0D && n < 12) {
+	if (stream[0] == 'P' || stream[0] == 0x0D) && n < 12 {
+		// shares its first byte with a signature but is shorter than the longer one
 		return c46Verdict{Mode: c46NoHeader, Class: "nohdr-short"}
 	}
 	return c46Verdict{Mode: c46NoHeader, Class: "nohdr"}
@@ -253,11 +254,13 @@ func c46ClassifyV1(stream []byte) c46Verdict {
 	}
 	idx := bytes.IndexByte(win, '\n')
 	if idx < 0 {
+		if bytes.IndexByte(stream, '\n') >= 0 {
+			// "If the CRLF sequence is not found in the first 107 characters, the
+			// receiver SHOULD declare the line invalid": only a SHOULD
+			return c46Verdict{Mode: c46DontCare, Class: "v1-overlong-line"}
+		}
 		if len(stream) >= 107 {
-			if bytes.HasPrefix(stream, []byte("PROXY UNKNOWN")) {
-				return c46Verdict{Mode: c46DontCare, Class: "v1-unknown-overlong"}
-			}
-			return rej("bad-v1-no-crlf-in-107")
+			return rej("bad-v1-no-crlf")
 		}
 		return rej("bad-v1-truncated")
 	}
@@ -338,6 +341,10 @@ func c46ClassifyV2(stream []byte, limit int) c46Verdict {
 	}
 	if vc&0x0F > 1 {
 		return rej("bad-v2-command")
+	}
+	if vc&0x0F == 0 {
+		// own class names for LOCAL so that findings about LOCAL stay apart
+		rej = func(c string) c46Verdict { return c46Verdict{Mode: c46Reject, Class: "v2-local-bad"} }
 	}
 	if len(stream) < 16 {
 		return rej("bad-v2-truncated")
